@@ -283,7 +283,8 @@ func ruleConstructorDiscipline(w *World, r *Run, rule, pkg, typ string, ctors []
 				}
 				n++
 				host := funcNameOrSSA(outermost(fn))
-				r.Check(allowed[host], rule, pkg+"."+typ+" | constructed only by "+strings.Join(ctors, ", "), w.pos(al.Pos()), typ+" value constructed in "+short(host)+" (bypasses the constructor's invariants)")
+				okHost := allowed[host] || w.onlyReachableFrom(fn, w.rootsOf(ctors...))
+				r.Check(okHost, rule, pkg+"."+typ+" | constructed only by "+strings.Join(ctors, ", ")+" (or helpers private to it)", w.pos(al.Pos()), typ+" value constructed in "+short(host)+", which is reachable from outside the constructor (bypasses the constructor's invariants)")
 			}
 		}
 	}
@@ -501,7 +502,7 @@ func ruleOneWitness(w *World, r *Run, rule string) {
 		ns := calls(s, fnNewServer)
 		r.Check(len(ns) == 1 && ns[0].Args[0] == W, rule, fnMain+" | HTTP API serves that witness", w.pos(s.RetPos), "the HTTP server is not built on the witness that the feeders update")
 		for _, av := range adapterVals(s) {
-			okA := len(av.Args) == 1 && av.Args[0].Name == "w" && av.Args[0].Args[0] == W
+			okA := len(av.Args) == 1 && av.Args[0].Args[0] == W
 			r.Check(okA, rule, key, w.pos(mp.newW.Pos), "a component is wired to "+short(av.String())+", not to the witness the HTTP API serves (split brain: two ratchets)")
 		}
 		// persistence parameter is not used for anything else (a second witness elsewhere)
@@ -599,6 +600,56 @@ func ruleEveryFeeder(w *World, r *Run, rule string) {
 		for v := range consts {
 			if k, val, _ := eqConstFact(s, fp, v); k && val {
 				handled[v] = s.Rets[0]
+			}
+		}
+	}
+	if len(handled) == 0 {
+		// table-driven form: FeedFunc returns tbl[f] of a package-level map literal (a missing key panics)
+		for _, s := range sums {
+			if s.Panic || len(s.Rets) != 1 {
+				continue
+			}
+			t := s.Rets[0]
+			if t.Kind == "lookup" && t.Args[0].Kind == "global" && t.Args[1] == fp {
+				if k, ok, _ := boolFact(s, mk("lookup", "ok", 0, nil, t.Args[0], fp)); k && ok {
+					gname := t.Args[0].Name
+					if initFn := w.funcs[pOmni+".init"]; initFn != nil {
+						for _, b := range initFn.Blocks {
+							for _, in := range b.Instrs {
+								mu, ok := in.(*ssa.MapUpdate)
+								if !ok {
+									continue
+								}
+								u, ok1 := mu.Map.(*ssa.UnOp)
+								var g *ssa.Global
+								if ok1 {
+									g, _ = u.X.(*ssa.Global)
+								}
+								if mk2, ok := mu.Map.(*ssa.MakeMap); ok {
+									for _, ref := range *mk2.Referrers() {
+										if st, ok := ref.(*ssa.Store); ok {
+											g, _ = st.Addr.(*ssa.Global)
+										}
+									}
+								}
+								if g == nil || g.Pkg.Pkg.Path()+"."+g.Name() != gname {
+									continue
+								}
+								kc, okk := mu.Key.(*ssa.Const)
+								var fv *ssa.Function
+								switch x := mu.Value.(type) {
+								case *ssa.Function:
+									fv = x
+								case *ssa.ChangeType:
+									fv, _ = x.X.(*ssa.Function)
+								}
+								if okk && fv != nil {
+									handled[kc.Value.ExactString()] = mk("func", fv.String(), 0, fv.Type())
+								}
+							}
+						}
+					}
+				}
 			}
 		}
 	}
@@ -743,9 +794,10 @@ func ruleEveryFeeder(w *World, r *Run, rule string) {
 			good := len(dc) == 1 && len(dc[0].Args) == 5 && len(s.Rets) == 1 && s.Rets[0] == dc[0].Res
 			if good {
 				a := dc[0].Args
-				good = a[1].Kind == "deref" && a[1].Args[0].Kind == "freevar" && a[1].Args[0].Name == "c" &&
-					a[2].Kind == "deref" && a[2].Args[0].Kind == "freevar" && a[2].Args[0].Name == "bw" &&
-					a[4].Kind == "field" && a[4].Name == "FeedInterval"
+				isFV := func(t *Term, typ string) bool {
+					return t.Kind == "deref" && t.Args[0].Kind == "freevar" && typeStr(t.Args[0].Typ) == typ
+				}
+				good = isFV(a[1], "*config.Log") && isFV(a[2], "*omniwitness.witnessAdapter") && a[4].Kind == "field" && a[4].Name == "FeedInterval"
 			}
 			r.Check(good, rule, cl.String()+" | runs f(ctx, its log, the shared witness adapter, http client, poll interval)", w.pos(s.RetPos), "feeder goroutine body does not call its feeder with the captured log and adapter")
 		}
@@ -820,28 +872,17 @@ func ruleNeverGivesUp(w *World, r *Run, rule string) {
 	// every feeder's fetchProof answers the empty proof for from.Size == 0 without touching the network
 	for _, fp := range feederPkgs {
 		name := modPath + "/internal/feeder/" + fp + ".FeedLog"
-		fn := w.fn(name)
-		if fn == nil {
-			continue
-		}
-		var fpCl *ssa.Function
-		for _, cl := range fn.AnonFuncs {
-			sig := cl.Signature
-			if sig.Params().Len() == 3 && typeStr(sig.Params().At(1).Type()) == "log.Checkpoint" && typeStr(sig.Params().At(2).Type()) == "log.Checkpoint" {
-				fpCl = cl
-			}
-		}
+		ff, okf := feederFuncs(w, r, rule, fp)
 		key := name + " | fetchProof(from.Size == 0) = empty proof"
-		if fpCl == nil {
-			r.Undecided(rule, key, "", "fetchProof closure not found")
+		if !okf {
 			continue
 		}
+		fpCl := ff.fetchProof
 		sums, _, ok := exploreFn(w, r, rule, fpCl, 2, 1)
 		if !ok {
 			continue
 		}
-		from := mk("param", fpCl.Params[1].Name(), 0, fpCl.Params[1].Type())
-		fsz := mk("field", "Size", 0, tUint64, from)
+		fsz := mk("field", "Size", 0, tUint64, ff.from)
 		found := false
 		for _, s := range sums {
 			if k, v, _ := eqConstFact(s, fsz, "0"); k && v {
